@@ -119,12 +119,49 @@ SINGLETONS = {"Vac", "Fourier", "MeasureX", "MeasureP", "MeasureHD", "Del"}
 NOARG = {"Vacuum", "MeasureFock", "MeasureThreshold", "MeasureHeterodyne"}
 
 
+def seeded_unitary(seed, n):
+    """Haar-ish random unitary from a private PRNG (QR of a complex Gaussian matrix); never touches numpy.random"""
+    import random as _r
+
+    rr = _r.Random("U:%d:%d" % (seed, n))
+    z = np.array([[complex(rr.gauss(0, 1), rr.gauss(0, 1)) for _ in range(n)] for _ in range(n)])
+    qm, rm_ = np.linalg.qr(z)
+    d = np.diagonal(rm_)
+    return qm * (d / np.abs(d))
+
+
+def seeded_symplectic(seed, n, rmax=0.4):
+    """S = O1 . diag(e^-r, e^r) . O2 in xxpp ordering, with passive O from seeded unitaries"""
+    import random as _r
+
+    rr = _r.Random("S:%d:%d" % (seed, n))
+
+    def passive(u):
+        x, y = u.real, u.imag
+        return np.block([[x, -y], [y, x]])
+
+    o1, o2 = passive(seeded_unitary(seed * 2 + 1, n)), passive(seeded_unitary(seed * 2 + 2, n))
+    r_ = np.array([rr.uniform(-rmax, rmax) for _ in range(n)])
+    z = np.diag(np.concatenate([np.exp(-r_), np.exp(r_)]))
+    return o1 @ z @ o2
+
+
 def make_op(o, prog, regs, numeric=None):
     """numeric: None -> symbolic build; else dict(bind=..., mvals=...) -> numbers substituted"""
     from strawberryfields import ops
 
     name = o["op"]
     kw = dict(o.get("kw", {}))
+    if name in ("Interferometer", "GaussianTransform", "Gaussian"):
+        n_ = len(o["m"])
+        if name == "Interferometer":
+            return ops.Interferometer(seeded_unitary(o["useed"], n_), **kw)
+        if name == "GaussianTransform":
+            return ops.GaussianTransform(seeded_symplectic(o["useed"], n_), **kw)
+        import strawberryfields as sf
+        S = seeded_symplectic(o["useed"], n_)
+        V = S @ S.T * sf.hbar / 2
+        return ops.Gaussian(V, r=np.array(o.get("means", [0.0] * (2 * n_))), **kw)
     for k, v in list(kw.items()):
         if isinstance(v, list) and v and v[0] == "c":
             kw[k] = complex(v[1], v[2])
